@@ -254,6 +254,80 @@ def rename(expr_or_list, mapping):
 
 
 
+def _subs_val(v, mapping):
+    if isinstance(v, Cx):
+        return Cx(sp.sympify(v.re).subs(mapping, simultaneous=True), sp.sympify(v.im).subs(mapping, simultaneous=True))
+    if isinstance(v, (list, tuple)):
+        return type(v)(_subs_val(x, mapping) for x in v)
+    if isinstance(v, (bool, int, float)) or v is None:
+        return v
+    try:
+        return sp.sympify(v).subs(mapping, simultaneous=True)
+    except Exception:
+        return v
+
+
+def elementwise(b: Bundle, relpath, qualname, args, array_params, pre=(), n=2, clause_id="array_is_elementwise", rels=(), max_obligations=600, **kw):
+    """the statement's "array inputs give, element by element, the value of the scalar call" as a relational postcondition:
+    the real function is executed once on scalars and once on n-element arrays (numpy object semantics: NdArr) of independent symbols for the
+    `array_params`; for every array path P, element k and scalar path S:   pre[k] /\ pc(P) /\ pc(S)[x := x_k]  ==>  P.value[k] == S.value[x := x_k].
+    Results may be one value or a tuple of values; an output that does not depend on an array argument may stay scalar."""
+    from .symex import NdArr
+    kw = dict(kw, xcheck=False)
+    fn, ex, spaths = run_fn(b, relpath, qualname, args, pre, **kw)
+    if not spaths:
+        return fn
+    syms = {prm: args[prm] for prm in array_params}
+    elems = {prm: [sp.Symbol(f"{syms[prm].name}__el{k}", **{a_: True for a_ in ("real", "positive") if getattr(syms[prm], "is_" + a_, None)}) for k in range(n)] for prm in array_params}
+    maps = [{syms[prm]: elems[prm][k] for prm in array_params} for k in range(n)]
+    arr_args = dict(args)
+    for prm in array_params:
+        arr_args[prm] = NdArr(list(elems[prm]))
+    pre_arr = []
+    for m in maps:
+        pre_arr += [h.subs(m, simultaneous=True) for h in pre]
+    fn2, ex2, apaths = run_fn(b, relpath, qualname, arr_args, pre_arr, **kw)
+    if not apaths:
+        return fn
+    count = 0
+
+    def parts(v):
+        return list(v) if isinstance(v, tuple) else [v]
+    for i, P in enumerate(apaths):
+        if P.outcome != "return":
+            b.add(Obligation(oid=f"{fn.key}::ensures:{clause_id}:noraise@path{i}", fn=fn.key, clause="array arguments raise only where the scalar call raises (no scalar path raises under the precondition)",
+                             goal=sp.false if all(S.outcome == "return" for S in spaths) else sp.true, hyps=list(pre_arr) + P.hyps, meta=dict(raised=repr(P.value)[:200])))
+            continue
+        for k in range(n):
+            mine = set(maps[k].values())
+            other = set().union(*[set(m.values()) for j_, m in enumerate(maps) if j_ != k])
+            hyP = [h for h in (pre_arr + P.hyps) if not (getattr(h, "free_symbols", set()) & other)]
+            for j, S in enumerate(spaths):
+                if S.outcome != "return":
+                    continue
+                sv, pv = parts(_subs_val(S.value, maps[k])), parts(P.value)
+                if len(sv) != len(pv):
+                    ground(b, f"{fn.key}::ensures:{clause_id}:shape@path{i}", fn.key, "array call returns as many outputs as the scalar call", False, detail=f"{len(pv)} vs {len(sv)}")
+                    continue
+                eqs = []
+                for o_, (a_, s_) in enumerate(zip(pv, sv)):
+                    if isinstance(a_, (NdArr, list)):
+                        if len(a_) != n:
+                            eqs.append(sp.false)
+                            continue
+                        a_ = a_[k]
+                    eqs += _eqs(a_, s_)
+                count += 1
+                if count > max_obligations:
+                    b.subset_exits.append(f"{fn.key}: more than {max_obligations} obligations for {clause_id}")
+                    return fn
+                b.add(Obligation(oid=f"{fn.key}::ensures:{clause_id}[element{k}]@paths{i}x{j}", fn=fn.key,
+                                 clause="ensures an array argument gives, element by element, the value the scalar call gives for that element",
+                                 goal=sp.And(*eqs), hyps=hyP + [h.subs(maps[k], simultaneous=True) for h in S.hyps], rels=list(rels),
+                                 meta=dict(array_path=[str(c)[:160] for c in P.pc], scalar_path=[str(c)[:160] for c in S.pc])))
+    return fn
+
+
 def elementwise_loop_rule(ex, st, env, rng):
     """loop rule for `for i in range(n)` with symbolic n and no loop-carried scalar state: the body is executed once for a
     generic index 0 <= i < n.  Frame obligations (writes only at the generic index) are checked by the caller on ex.effects."""
